@@ -47,6 +47,8 @@ pub enum Op {
     // ---- registry
     AddValidator { sender: String, validator: String },
     RemoveValidator { sender: String, validator: String },
+    /// the registry's public `Redelegations` message: manual completion of a removal whose redelegation was locked
+    Redelegations { sender: String, validator: String },
     // ---- owner
     UpdateParams { sender: String, epoch: Option<u64>, fee: Option<String>, threshold: Option<String>, paused: Option<bool> },
     // ---- arbitrary message
@@ -129,6 +131,7 @@ impl Op {
             Op::ClaimRewards { .. } => "claim_rewards",
             Op::AddValidator { .. } => "add_validator",
             Op::RemoveValidator { .. } => "remove_validator",
+            Op::Redelegations { .. } => "redelegations",
             Op::UpdateParams { .. } => "update_params",
             Op::Raw { .. } => "raw",
             Op::Advance { .. } => "advance",
@@ -272,6 +275,12 @@ impl Op {
                 sender.clone(),
                 REGISTRY.into(),
                 to_json_binary(&basset_sei_validators_registry::msg::ExecuteMsg::RemoveValidator { address: validator.clone() }).unwrap(),
+                none,
+            ),
+            Op::Redelegations { sender, validator } => (
+                sender.clone(),
+                REGISTRY.into(),
+                to_json_binary(&basset_sei_validators_registry::msg::ExecuteMsg::Redelegations { address: validator.clone() }).unwrap(),
                 none,
             ),
             Op::UpdateParams { sender, epoch, fee, threshold, paused } => (
